@@ -28,7 +28,7 @@ type UnitResult struct {
 	Outcomes       int                  `json:"distinct_outcomes"`
 	OutcomeSample  []string             `json:"outcome_sample,omitempty"`
 	BoundCompleted int                  `json:"bound_completed"`
-	Capped         bool                 `json:"capped,omitempty"` // explored with a bound below the unit's own (first thorough pass)
+	Capped         bool                 `json:"capped,omitempty"`  // explored with a bound below the unit's own (first thorough pass)
 	CapHit         bool                 `json:"cap_hit,omitempty"` // the unit's execution cap, not its deadline, ended the exploration
 	Exhaustive     bool                 `json:"exhaustive"`
 	Violations     []vrt.FoundViolation `json:"violations,omitempty"`
@@ -314,139 +314,139 @@ func coordinator(prop, tier string) int {
 	passes := 0
 	passCap := -1
 	runPass := func(pending []int) {
-	passes++
-	jobs := make(chan int, len(pending))
-	for _, i := range pending {
-		jobs <- i
-	}
-	close(jobs)
-	nUnits := len(pending)
-	nw := nw
-	if nw > nUnits {
-		nw = nUnits
-	}
-	dealt := 0
-	var wg sync.WaitGroup
-	for w := 0; w < nw; w++ {
-		wg.Add(1)
-		go func(w int) {
-			defer wg.Done()
-			var cmd *exec.Cmd
-			var stdin *bufio.Writer
-			var stdout *bufio.Reader
-			startWorker := func() error {
-				cmd = exec.Command(self, "worker", prop, tier)
-				cmd.Env = append(os.Environ(), "GOMAXPROCS=2", "GOGC=200")
-				cmd.Stderr = nil
-				ip, err := cmd.StdinPipe()
-				if err != nil {
-					return err
-				}
-				op, err := cmd.StdoutPipe()
-				if err != nil {
-					return err
-				}
-				stdin = bufio.NewWriter(ip)
-				stdout = bufio.NewReaderSize(op, 1<<20)
-				errFile, _ := os.CreateTemp(filepath.Dir(self), "verifh-worker-*.log") // next to the binary: the scratch directory bin/check removes
-				cmd.Stderr = errFile
-				return cmd.Start()
-			}
-			if err := startWorker(); err != nil {
-				mu.Lock()
-				infra = append(infra, "cannot start worker: "+err.Error())
-				mu.Unlock()
-				return
-			}
-			served := 0
-			for idx := range jobs {
-				// fair share: what is left of the budget, spread over the units not yet dealt, so that
-				// every unit is explored to some completed bound instead of the last ones not at all
-				mu.Lock()
-				left := nUnits - dealt
-				dealt++
-				mu.Unlock()
-				ud := deadline
-				if left > nw && tier == "thorough" && passCap < 0 {
-					share := time.Duration(int64(time.Until(deadline)) * int64(nw) / int64(left))
-					if share < 15*time.Second {
-						share = 15 * time.Second
+		passes++
+		jobs := make(chan int, len(pending))
+		for _, i := range pending {
+			jobs <- i
+		}
+		close(jobs)
+		nUnits := len(pending)
+		nw := nw
+		if nw > nUnits {
+			nw = nUnits
+		}
+		dealt := 0
+		var wg sync.WaitGroup
+		for w := 0; w < nw; w++ {
+			wg.Add(1)
+			go func(w int) {
+				defer wg.Done()
+				var cmd *exec.Cmd
+				var stdin *bufio.Writer
+				var stdout *bufio.Reader
+				startWorker := func() error {
+					cmd = exec.Command(self, "worker", prop, tier)
+					cmd.Env = append(os.Environ(), "GOMAXPROCS=2", "GOGC=200")
+					cmd.Stderr = nil
+					ip, err := cmd.StdinPipe()
+					if err != nil {
+						return err
 					}
-					if d := time.Now().Add(share); d.Before(ud) {
-						ud = d
+					op, err := cmd.StdoutPipe()
+					if err != nil {
+						return err
 					}
+					stdin = bufio.NewWriter(ip)
+					stdout = bufio.NewReaderSize(op, 1<<20)
+					errFile, _ := os.CreateTemp(filepath.Dir(self), "verifh-worker-*.log") // next to the binary: the scratch directory bin/check removes
+					cmd.Stderr = errFile
+					return cmd.Start()
 				}
-				fmt.Fprintf(stdin, "%d %d %d\n", idx, ud.UnixMilli(), passCap)
-				stdin.Flush()
-				line, err := stdout.ReadBytes('\n')
-				if err != nil {
-					// the worker died: a fatal runtime error in the code under test or in the harness
-					logTail := ""
-					if f, ok := cmd.Stderr.(*os.File); ok {
-						b, _ := os.ReadFile(f.Name())
-						if len(b) > 3000 {
-							b = b[:3000]
+				if err := startWorker(); err != nil {
+					mu.Lock()
+					infra = append(infra, "cannot start worker: "+err.Error())
+					mu.Unlock()
+					return
+				}
+				served := 0
+				for idx := range jobs {
+					// fair share: what is left of the budget, spread over the units not yet dealt, so that
+					// every unit is explored to some completed bound instead of the last ones not at all
+					mu.Lock()
+					left := nUnits - dealt
+					dealt++
+					mu.Unlock()
+					ud := deadline
+					if left > nw && tier == "thorough" && passCap < 0 {
+						share := time.Duration(int64(time.Until(deadline)) * int64(nw) / int64(left))
+						if share < 15*time.Second {
+							share = 15 * time.Second
 						}
-						logTail = string(b)
+						if d := time.Now().Add(share); d.Before(ud) {
+							ud = d
+						}
 					}
-					_ = cmd.Wait()
-					mu.Lock()
-					results[idx] = &UnitResult{Name: units[idx].Name, Violations: []vrt.FoundViolation{{Violation: vrt.Violation{
-						Key:    "worker-died/" + fatalKey(logTail),
-						Detail: "the worker process died while running " + units[idx].Name + ":\n" + logTail}}}}
-					mu.Unlock()
-					if err := startWorker(); err != nil {
+					fmt.Fprintf(stdin, "%d %d %d\n", idx, ud.UnixMilli(), passCap)
+					stdin.Flush()
+					line, err := stdout.ReadBytes('\n')
+					if err != nil {
+						// the worker died: a fatal runtime error in the code under test or in the harness
+						logTail := ""
+						if f, ok := cmd.Stderr.(*os.File); ok {
+							b, _ := os.ReadFile(f.Name())
+							if len(b) > 3000 {
+								b = b[:3000]
+							}
+							logTail = string(b)
+						}
+						_ = cmd.Wait()
 						mu.Lock()
-						infra = append(infra, "cannot restart worker: "+err.Error())
+						results[idx] = &UnitResult{Name: units[idx].Name, Violations: []vrt.FoundViolation{{Violation: vrt.Violation{
+							Key:    "worker-died/" + fatalKey(logTail),
+							Detail: "the worker process died while running " + units[idx].Name + ":\n" + logTail}}}}
 						mu.Unlock()
-						return
+						if err := startWorker(); err != nil {
+							mu.Lock()
+							infra = append(infra, "cannot restart worker: "+err.Error())
+							mu.Unlock()
+							return
+						}
+						continue
 					}
-					continue
-				}
-				var res UnitResult
-				if err := json.Unmarshal(line, &res); err != nil {
-					mu.Lock()
-					infra = append(infra, "bad worker output: "+err.Error())
-					mu.Unlock()
-					continue
-				}
-				mu.Lock()
-				if prev := results[idx]; prev != nil {
-					// a later pass restarts the unit from bound 0 with a longer deadline: it supersedes the
-					// earlier result unless it got less far; violations are kept from both
-					if res.BoundCompleted < prev.BoundCompleted {
-						prev.Violations = append(prev.Violations, res.Violations...)
-						res = *prev
-					} else {
-						res.Violations = append(res.Violations, prev.Violations...)
-					}
-				}
-				results[idx] = &res
-				mu.Unlock()
-				served++
-				if res.Poisoned {
-					_ = cmd.Process.Kill()
-					_ = cmd.Wait()
-					if err := startWorker(); err != nil {
+					var res UnitResult
+					if err := json.Unmarshal(line, &res); err != nil {
 						mu.Lock()
-						infra = append(infra, "cannot restart worker: "+err.Error())
+						infra = append(infra, "bad worker output: "+err.Error())
 						mu.Unlock()
-						return
+						continue
+					}
+					mu.Lock()
+					if prev := results[idx]; prev != nil {
+						// a later pass restarts the unit from bound 0 with a longer deadline: it supersedes the
+						// earlier result unless it got less far; violations are kept from both
+						if res.BoundCompleted < prev.BoundCompleted {
+							prev.Violations = append(prev.Violations, res.Violations...)
+							res = *prev
+						} else {
+							res.Violations = append(res.Violations, prev.Violations...)
+						}
+					}
+					results[idx] = &res
+					mu.Unlock()
+					served++
+					if res.Poisoned {
+						_ = cmd.Process.Kill()
+						_ = cmd.Wait()
+						if err := startWorker(); err != nil {
+							mu.Lock()
+							infra = append(infra, "cannot restart worker: "+err.Error())
+							mu.Unlock()
+							return
+						}
 					}
 				}
-			}
-			stdin.Flush()
-			if c, ok := cmd.Stdin.(interface{ Close() error }); ok {
-				_ = c
-			}
-			_ = cmd.Process.Kill()
-			_ = cmd.Wait()
-			if f, ok := cmd.Stderr.(*os.File); ok {
-				os.Remove(f.Name())
-			}
-		}(w)
-	}
-	wg.Wait()
+				stdin.Flush()
+				if c, ok := cmd.Stdin.(interface{ Close() error }); ok {
+					_ = c
+				}
+				_ = cmd.Process.Kill()
+				_ = cmd.Wait()
+				if f, ok := cmd.Stderr.(*os.File); ok {
+					os.Remove(f.Name())
+				}
+			}(w)
+		}
+		wg.Wait()
 	}
 	if tier == "thorough" {
 		// first every unit to bound 1 (what the quick tier completes), so that no unit is left unexplored
